@@ -904,3 +904,71 @@ def _c11z(fb, rep):
 
 
 RULES['C11'] = _c11z
+
+
+def c19b(fb, rep):
+    """R19.13: a single-statement `while(v != 0 && ...) x = f(--w);` steps the counter its guard tests: the counter compared with 0 in the condition is (one
+    of) the counter(s) the statement decrements - otherwise the loop walks below position 0 or never moves (merge loops of the sparse products).
+    (written after seed C19-6 was missed)"""
+    rep.rule('R19.13', 'containers: a one-statement while loop decrements the counter that its guard compares with 0', floor=3)
+    k = 0
+    for f in sorted(fb.funcs.values(), key=lambda g: (g.file, g.line, g.name)):
+        if not f.nodes or not f.name.startswith('soplex::') or not re.search(r'/(ssvectorbase|svectorbase|svsetbase|dsvectorbase|vectorbase|idxset|didxset|dataset|classset|islist|idlist|nameset)\.h', f.file):
+            continue
+        for n in f.nodes:
+            if n.k != 'WhileStmt' or n.kid('cond') is None or n.kid('body') is None or n.kid('body').k == 'CompoundStmt':
+                continue
+            gv = set(re.findall(r'\b(\w+) (?:!=|>) 0\b', render(n.kid('cond'))))
+            decs = set(render(strip(x.kids[0])) for x in n.kid('body').walk() if x.k == 'UnaryOperator' and '--' in (x.o or ''))
+            if not gv or not decs:
+                continue
+            k += 1
+            rep.check(bool(gv & decs), 'R19.13', '%s|while(%s)#%d' % (f.short, sorted(gv)[0], k), '%s:%d' % (f.file, n.l), 'guard and step agree on %s' % sorted(gv & decs),
+                      '`while(%s) %s`: the guard tests %s against 0, the statement decrements %s - the guard never changes through the loop itself and the stepped counter runs below 0'
+                      % (render(n.kid('cond'))[:50], render(n.kid('body'))[:40], sorted(gv), sorted(decs)))
+    if k < 3:
+        raise AnalysisBroken('R19.13: only %d one-statement while loops with a zero guard found in the container headers' % k)
+
+
+_c19a = RULES['C19']
+
+
+def _c19(fb, rep):
+    _c19a(fb, rep)
+    c19b(fb, rep)
+
+
+RULES['C19'] = _c19
+
+
+def c15(fb, rep):
+    """R15.9: setBoolParam / setIntParam / setRealParam return early when the value is unchanged - except on the initialisation path (init == true), where the
+    setter must run to push the value into the components (operator=, setSettings and the constructors rely on it): the three siblings agree that the
+    early return is conjoined with !init.  (written after seed C15-5 was missed)"""
+    rep.rule('R15.9', 'the three typed setters skip an unchanged value only when init is false', floor=3)
+    k = 0
+    for nm in ('setBoolParam', 'setIntParam', 'setRealParam'):
+        for f in fb.find(C + '::' + nm):
+            if not f.nodes or len(f.params) < 3:
+                continue
+            ini = f.params[2][0]
+            getter = nm[3].lower() + nm[4:]
+            hits = []
+            for n in f.nodes:
+                if n.k == 'IfStmt' and n.kid('cond') is not None and n.kid('then') is not None and re.search(r'value == %s\(param\)|%s\(param\) == value' % (getter, getter), render(n.kid('cond'))) \
+                        and any(x.k == 'ReturnStmt' for x in n.kid('then').walk()):
+                    hits.append(n)
+            if not hits:
+                rep.unrec('R15.9', nm, f.where(), 'early return for an unchanged value not found')
+                continue
+            for n in hits:
+                k += 1
+                ct = render(n.kid('cond'))
+                rep.check(bool(re.search(r'!%s\b' % re.escape(ini), ct)) and '||' not in ct, 'R15.9', nm, '%s:%d' % (f.file, n.l), ct[:60],
+                          '%s returns early on `%s` also when %s is true: operator= / setSettings() / the constructors call the setter with init == true after the stored value was '
+                          'already overwritten, the value then never reaches the component that uses it' % (nm, ct[:60], ini))
+    if k < 3:
+        raise AnalysisBroken('R15.9: only %d early returns found' % k)
+
+
+RULES['C15'] = c15
